@@ -26,24 +26,29 @@ RULE = (
 BUDGET = {'quick': (60000, 55), 'thorough': (4_000_000, 600)}
 COMPONENTS = dict(common.COMPONENTS, real=common.COMPONENTS['real'] + ['plumpy.workchains (WorkChain, Waiting with awaitables, to_context)'])
 ASSUMPTIONS = ['FIFO ready queue', 'awaited futures complete with values (failing items are C10)']
-EXPECTED_COUNTERS = ['probe:resume_on_interrupted_wait', 'probe:complete_while_paused', 'probe:pause_after_wakeup_same_position',
+EXPECTED_COUNTERS = ['probe:awaited_child', 'probe:resume_on_interrupted_wait', 'probe:complete_while_paused', 'probe:pause_after_wakeup_same_position',
                      'probe:resume_while_paused', 'probe:wakeup_while_pause_pending']
 PROGRAM_CFG = {'max_steps': 4, 'p_wait': 0.75, 'rets': ['value', 'stop'], 'effects': ['out', 'status'], 'p_async': 0.35}
 _sys_cache = {}
 
 
-def wc_program(n_futures, via):
-    """A: hands n bare futures to the context (returning ToContext, calling to_context, or both); B: next step."""
+def wc_program(n_futures, via, child_durations=()):
+    """A: hands n bare futures (and children that finish by themselves after a virtual duration) to the context (returning
+    ToContext, calling to_context, or both); B: next step."""
     effects, items = [], {}
-    for i in range(n_futures):
+    arefs = [(f'k{i}', {'fut': i}) for i in range(n_futures)] + [(f'c{j}', {'child': j}) for j in range(len(child_durations))]
+    for i, (key, aref) in enumerate(arefs):
         how = via if via != 'both' else ('call' if i % 2 == 0 else 'ret')
         if how == 'call':
-            effects.append({'e': 'toctx', 'key': f'k{i}', 'ref': {'fut': i}})
+            effects.append({'e': 'toctx', 'key': key, 'ref': aref})
         else:
-            items[f'k{i}'] = {'fut': i}
+            items[key] = aref
     ret = {'t': 'tocontext', 'items': items} if items else None
+    children = [{'kind': 'process', 'inputs': None,
+                 'steps': [{'async': True, 'awaits': [d], 'effects': [[{'e': 'out', 'k': 'r', 'v': j}], []], 'ret': {'t': 'value', 'v': j}}]}
+                for j, d in enumerate(child_durations)]
     return {'kind': 'workchain', 'outline': [['s', 'A'], ['s', 'B']],
-            'steps': {'A': {'effects': effects, 'ret': ret}, 'B': {'effects': [], 'ret': None}}, 'preds': {}, 'children': []}
+            'steps': {'A': {'effects': effects, 'ret': ret}, 'B': {'effects': [], 'ret': None}}, 'preds': {}, 'children': children}
 
 
 def systematic(tier):
@@ -92,7 +97,8 @@ def random_case(rng, tier):
                                        p_listener=0.0, p_same=0.6, must=['resume'])
     else:
         n_futures = rng.randint(1, 3)
-        program = wc_program(n_futures, rng.choice(['ret', 'call', 'both']))
+        durations = [rng.choice([0, 0.5, 1]) for _ in range(rng.choice([0, 0, 1, 2]))]
+        program = wc_program(n_futures, rng.choice(['ret', 'call', 'both']), durations)
         ticks, notify, _ = common.dry_run(program)
         schedule = common.gen_schedule(rng, ['complete', 'complete', 'pause', 'play'], max_actions, ticks + 2, notify,
                                        p_listener=0.0, p_same=0.6, must=['complete'])
@@ -198,6 +204,13 @@ def _oracle(engine, result, case, drive):
                 result.violate('lost_wakeup', 'B_count', f'step after the barrier ran {len(b_entries)} times')
             else:
                 view = b_entries[0][3]
+                for index, children in world.child_by_index.items():
+                    child = children[-1]
+                    result.counters['probe:awaited_child'] += 1
+                    if child.has_terminated() and child.state.value == 'finished' \
+                            and view.get(f'c{index}') != programs.freeze(child.outputs):
+                        result.violate('ctx_missing', 'child', f'ctx[c{index}] is {view.get(f"c{index}")!r} at the next step, the '
+                                                               f'child finished with {child.outputs!r}')
                 for ident, future in world.futures.items():
                     if future.done() and not future.cancelled() and view.get(f'k{ident}') != future.result():
                         result.violate('ctx_missing', 'value', f'ctx[k{ident}] is {view.get(f"k{ident}")!r} at the next '
